@@ -203,6 +203,15 @@ class isoparser(object):
     _TIME_SEP = b':'
     _FRACTION_REGEX = re.compile(b'[\\.,]([0-9]+)')
 
+    @staticmethod
+    def _parse_int(field, ndigits):
+        # An ISO-8601 field is a fixed number of ASCII digits; int() alone
+        # would also accept signs, surrounding whitespace, underscores and
+        # a field cut short by the end of the string.
+        if len(field) != ndigits or not field.isdigit():
+            raise ValueError('Invalid ISO-8601 field: {!r}'.format(field))
+        return int(field)
+
     def _parse_isodate(self, dt_str):
         try:
             return self._parse_isodate_common(dt_str)
@@ -217,7 +226,7 @@ class isoparser(object):
             raise ValueError('ISO string too short')
 
         # Year
-        components[0] = int(dt_str[0:4])
+        components[0] = self._parse_int(dt_str[0:4], 4)
         pos = 4
         if pos >= len_str:
             return components, pos
@@ -230,7 +239,7 @@ class isoparser(object):
         if len_str - pos < 2:
             raise ValueError('Invalid common month')
 
-        components[1] = int(dt_str[pos:pos + 2])
+        components[1] = self._parse_int(dt_str[pos:pos + 2], 2)
         pos += 2
 
         if pos >= len_str:
@@ -247,7 +256,7 @@ class isoparser(object):
         # Day
         if len_str - pos < 2:
             raise ValueError('Invalid common day')
-        components[2] = int(dt_str[pos:pos + 2])
+        components[2] = self._parse_int(dt_str[pos:pos + 2], 2)
         return components, pos + 2
 
     def _parse_isodate_uncommon(self, dt_str):
@@ -255,7 +264,7 @@ class isoparser(object):
             raise ValueError('ISO string too short')
 
         # All ISO formats start with the year
-        year = int(dt_str[0:4])
+        year = self._parse_int(dt_str[0:4], 4)
 
         has_sep = dt_str[4:5] == self._DATE_SEP
 
@@ -263,7 +272,7 @@ class isoparser(object):
         if dt_str[pos:pos + 1] == b'W':
             # YYYY-?Www-?D?
             pos += 1
-            weekno = int(dt_str[pos:pos + 2])
+            weekno = self._parse_int(dt_str[pos:pos + 2], 2)
             pos += 2
 
             dayno = 1
@@ -273,7 +282,7 @@ class isoparser(object):
 
                 pos += has_sep
 
-                dayno = int(dt_str[pos:pos + 1])
+                dayno = self._parse_int(dt_str[pos:pos + 1], 1)
                 pos += 1
 
             base_date = self._calculate_weekdate(year, weekno, dayno)
@@ -282,7 +291,7 @@ class isoparser(object):
             if len(dt_str) - pos < 3:
                 raise ValueError('Invalid ordinal day')
 
-            ordinal_day = int(dt_str[pos:pos + 3])
+            ordinal_day = self._parse_int(dt_str[pos:pos + 3], 3)
             pos += 3
 
             if ordinal_day < 1 or ordinal_day > (365 + calendar.isleap(year)):
@@ -357,7 +366,7 @@ class isoparser(object):
 
             if comp < 3:
                 # Hour, minute, second
-                components[comp] = int(timestr[pos:pos + 2])
+                components[comp] = self._parse_int(timestr[pos:pos + 2], 2)
                 pos += 2
 
             if comp == 3:
@@ -394,11 +403,15 @@ class isoparser(object):
         else:
             raise ValueError('Time zone offset requires sign')
 
-        hours = int(tzstr[1:3])
+        hours = self._parse_int(tzstr[1:3], 2)
         if len(tzstr) == 3:
             minutes = 0
+        elif len(tzstr) == 5:
+            minutes = self._parse_int(tzstr[3:], 2)
         else:
-            minutes = int(tzstr[(4 if tzstr[3:4] == self._TIME_SEP else 3):])
+            if tzstr[3:4] != self._TIME_SEP:
+                raise ValueError('Invalid separator in time zone offset')
+            minutes = self._parse_int(tzstr[4:], 2)
 
         if zero_as_utc and hours == 0 and minutes == 0:
             return tz.UTC
